@@ -1084,8 +1084,15 @@ pub fn generate(ctx: &Ctx, prop: &str, rng: &mut Rng64, thorough: bool, index: u
                 // the first runs walk the enumerated list once, entry by entry
                 let bad = if j == 0 && (index as usize) < enumerated.len() { enumerated[index as usize].clone() } else { crate::malformed::make(rng, &valid) };
                 let at = rng.below(s.len() as u64 + 1) as usize;
+                let accepted_looking = bad.starts_with("position fen") || bad.starts_with("position startpos");
                 s.insert(at, UStep::Line(bad));
                 let mut j = at + 1;
+                // text that sets up something: let the engine work on whatever it made of it
+                if accepted_looking && rng.chance(600) {
+                    s.insert(j, UStep::Line(format!("go depth {}", 1 + rng.below(3))));
+                    s.insert(j + 1, UStep::Settle(60_000));
+                    j += 2;
+                }
                 if rng.chance(400) {
                     s.insert(j, UStep::Steps(1 + rng.below(50) as u32));
                     j += 1;
